@@ -38,6 +38,11 @@ func (g G) Lib() bool { return strings.Contains(g.Stack, LibFrame) }
 // Parked reports whether the goroutine is blocked in a synchronisation
 // primitive, channel operation, network wait or sleep (i.e. not in motion).
 func (g G) Parked() bool {
+	if g.State == "semacquire" {
+		// sync.WaitGroup.Wait shows up as plain "semacquire" (so does a goroutine
+		// waiting for the runtime's world semaphore, which is in motion)
+		return strings.Contains(g.Stack, "sync.(*WaitGroup).Wait")
+	}
 	switch g.State {
 	case "sync.Cond.Wait", "sync.Mutex.Lock", "sync.RWMutex.Lock", "sync.RWMutex.RLock",
 		"chan receive", "chan send", "select", "IO wait", "sleep", "sync.WaitGroup.Wait", "chan receive (nil chan)", "select (no cases)":
@@ -48,6 +53,9 @@ func (g G) Parked() bool {
 
 // LockBlocked reports whether the goroutine waits on a mutex/condition.
 func (g G) LockBlocked() bool {
+	if g.State == "semacquire" {
+		return strings.Contains(g.Stack, "sync.(*WaitGroup).Wait")
+	}
 	switch g.State {
 	case "sync.Cond.Wait", "sync.Mutex.Lock", "sync.RWMutex.Lock", "sync.RWMutex.RLock", "sync.WaitGroup.Wait":
 		return true
@@ -125,7 +133,7 @@ func Summary(gs []G) []string {
 		for _, l := range lines[1:] {
 			l = strings.TrimSpace(l)
 			if strings.HasPrefix(l, "github.com/mdzio/go-mqtt/") || strings.HasPrefix(l, "sync.") {
-				if p := strings.IndexByte(l, '('); p > 0 {
+				if p := strings.LastIndexByte(l, '('); p > 0 {
 					l = l[:p]
 				}
 				fr = append(fr, strings.TrimPrefix(l, "github.com/mdzio/go-mqtt/"))
